@@ -341,3 +341,33 @@ func Judge(plans []Plan, log []Ev, gotErr bool) string {
 	}
 	return first
 }
+
+// Executed returns, for a plan whose order is fixed (no ties), the ids of the rules that run, in
+// stage order (the set is schedule independent).
+func Executed(pl Plan) []int64 {
+	var out []int64
+	failed, tagged := false, false
+	for _, st := range pl.Stages {
+		switch st.Mode {
+		case Conc:
+			for _, r := range st.Rules {
+				out = append(out, r.ID)
+				failed = failed || r.Fail
+				tagged = tagged || r.SetsTag
+			}
+		case Sorted:
+			for _, r := range st.Rules {
+				out = append(out, r.ID)
+				failed = failed || r.Fail
+				tagged = tagged || r.SetsTag
+				if (r.Fail && st.StopInside) || (r.SetsTag && st.TagStops) {
+					return out
+				}
+			}
+		}
+		if (failed && st.StopAfter) || (tagged && st.TagAfter) {
+			break
+		}
+	}
+	return out
+}
